@@ -103,6 +103,7 @@ def run_unit(unit_path, workdir, canary=False, rlimit=None, extra_mutation=None,
     res['hashes'] = info['hashes']
     res['lost_anchors'] = info['lost']
     res['includes'] = info['includes']
+    res['stubs'] = info['stubs']
     text = info['text']
     origin = info['origin']
     if extra_mutation:
